@@ -186,20 +186,37 @@ class CoreTask:
         except Exception as e:      # noqa
             res["status"] = "crash"
             res["detail"] = "%s\n%s" % (e, traceback.format_exc())
-        if self.which == "iter_errors" and (res["status"] == "out-of-subset" or any(o["status"] != "discharged" for o in res["obligations"])):
-            # directed search at the dispatch level (two-keyword schemas) on the real code
-            from pyvc import driver
+        if res["status"] != "ok" or any(o["status"] != "discharged" for o in res["obligations"]):
+            self.failure_search(res)
+        res["wall_s"] = round(time.time() - t0, 3)
+        return res
+
+    def failure_search(self, res):
+        """directed searches on the real code for an input that exhibits the failure"""
+        from pyvc import driver
+        if self.which == "iter_errors":
+            # the dispatch level: two-keyword schemas, keywords outside the vocabulary, keywords next to a reference
             for mode, slot in (("verdict", "search"), ("errors", "search_errors")):
                 try:
                     res[slot] = driver.rt_call("pyvc.rt_kw", {"cmd": "search_pairs", "mode": mode, "root": self.root, "drafts": [self.d], "limit": 3}, self.root, timeout=3000)
                     if not res[slot].get("failures"):
-                        # keywords outside the vocabulary, keywords next to a reference
                         ex = driver.rt_call("pyvc.rt_kw", {"cmd": "search_extras", "root": self.root, "drafts": [self.d], "limit": 3}, self.root, timeout=3000)
                         res[slot] = {"failures": ex["failures"], "tried": res[slot].get("tried", 0) + ex["tried"]}
                 except Exception as e:      # noqa
                     res[slot] = {"error": str(e)[-300:], "failures": []}
-        res["wall_s"] = round(time.time() - t0, 3)
-        return res
+        elif self.which == "is_type" and type(self).__name__ == "CoreTask":
+            # is_type is observable through `type` and through every keyword guarded by a type test
+            fails, tried = [], 0
+            for k in ("type", "items", "minimum", "multipleOf" if self.d != 3 else "divisibleBy"):
+                try:
+                    r = driver.rt_call("pyvc.rt_kw", {"cmd": "search", "root": self.root, "draft": self.d, "keyword": k, "limit": 2}, self.root, timeout=3000)
+                    fails += r["failures"]
+                    tried += r["tried"]
+                except Exception as e:      # noqa
+                    res.setdefault("search_error", str(e)[-300:])
+                if fails:
+                    break
+            res["search"] = {"failures": fails, "tried": tried}
 
     def setup(self, no_callee_exc=True):
         repo = extract.Repo(self.root)
